@@ -497,3 +497,240 @@ VARIANTS += [
  dict(name='blob-predicate-two-levels-inner-accepts-prefix', expect='flagged(blob/mediatype-equal)',
       **blob_helper(IF_PRED, TWO_LEVEL.replace('stated == "" || stated == signed', 'stated == "" || strings.HasPrefix(signed, stated)'))),
 ]
+
+# ---- class D: the metadata check is handed something narrower / wider, or answers with a boolean ---------------------
+META_CALL_OCI = '''	if len(opts.UserMetadata) > 0 {
+		err := verifyUserMetadata(logger, payload, opts.UserMetadata)
+		if err != nil {
+			outcome.Error = err
+		}
+	}
+
+	return outcome, outcome.Error
+}
+
+func (v *verifier) processSignature'''
+META_CALL_BLOB = '''	if len(opts.UserMetadata) > 0 {
+		err := verifyUserMetadata(logger, payload, opts.UserMetadata)
+		if err != nil {
+			outcome.Error = err
+		}
+	}
+
+	return outcome, outcome.Error
+}
+
+// Verify verifies'''
+VUM_OLD = '''func verifyUserMetadata(logger log.Logger, payload *envelope.Payload, userMetadata map[string]string) error {
+	logger.Debugf("Verifying that metadata %v is present in signature", userMetadata)
+	logger.Debugf("Signature metadata: %v", payload.TargetArtifact.Annotations)
+
+	for k, v := range userMetadata {
+		if got, ok := payload.TargetArtifact.Annotations[k]; !ok || got != v {
+			logger.Errorf("User required metadata %s=%s is not present in the signature", k, v)
+			return notation.ErrorUserMetadataVerificationFailed{}
+		}
+	}
+
+	return nil
+}
+'''
+META_CALL = 'verifyUserMetadata(logger, payload, opts.UserMetadata)'
+def meta_calls(new_oci, new_blob=None):
+    new_blob = new_oci if new_blob is None else new_blob
+    return [(V, META_CALL_OCI, META_CALL_OCI.replace(META_CALL, new_oci)), (V, META_CALL_BLOB, META_CALL_BLOB.replace(META_CALL, new_blob))]
+def vum(param, lookup, ranged='userMetadata', pre=''):
+    return '''func verifyUserMetadata(logger log.Logger, ''' + param + ''', userMetadata map[string]string) error {
+''' + pre + '''	for k, v := range ''' + ranged + ''' {
+		if got, ok := ''' + lookup + '''[k]; !ok || got != v {
+			logger.Errorf("User required metadata %s=%s is not present in the signature", k, v)
+			return notation.ErrorUserMetadataVerificationFailed{}
+		}
+	}
+	return nil
+}
+'''
+BOOL_IF = '''		err := verifyUserMetadata(logger, payload, opts.UserMetadata)
+		if err != nil {
+			outcome.Error = err
+		}'''
+def bool_calls(cond):
+    new = '\t\tif ' + cond + ' {\n\t\t\toutcome.Error = notation.ErrorUserMetadataVerificationFailed{}\n\t\t}'
+    return [(V, META_CALL_OCI, META_CALL_OCI.replace(BOOL_IF, new)), (V, META_CALL_BLOB, META_CALL_BLOB.replace(BOOL_IF, new))]
+HAS_META = '''func hasUserMetadata(logger log.Logger, payload *envelope.Payload, userMetadata map[string]string) bool {
+	for k, v := range userMetadata {
+		if got, ok := payload.TargetArtifact.Annotations[k]; !ok || got != v {
+			logger.Errorf("User required metadata %s=%s is not present in the signature", k, v)
+			return false
+		}
+	}
+	return true
+}
+'''
+WIDE = '''func verifyRequiredMetadata(logger log.Logger, outcome *notation.VerificationOutcome, opts notation.VerifierVerifyOptions) error {
+	if len(opts.UserMetadata) == 0 {
+		return nil
+	}
+	signed := &envelope.Payload{}
+	if err := json.Unmarshal(outcome.EnvelopeContent.Payload.Content, signed); err != nil {
+		return err
+	}
+	return verifyUserMetadata(logger, signed, RANGED)
+}
+
+'''
+WIDE_CALL = '''	if len(opts.UserMetadata) > 0 {
+		err := verifyUserMetadata(logger, payload, opts.UserMetadata)
+		if err != nil {
+			outcome.Error = err
+		}
+	}
+
+	return outcome, outcome.Error
+}
+
+func (v *verifier) processSignature'''
+WIDE_NEW = '''	if err := verifyRequiredMetadata(logger, outcome, opts); err != nil {
+		outcome.Error = err
+	}
+
+	return outcome, outcome.Error
+}
+
+func (v *verifier) processSignature'''
+
+VARIANTS += [
+ dict(name='benign-metadata-handed-the-annotations', expect='silent',
+      edits=meta_calls('verifyUserMetadata(logger, payload.TargetArtifact.Annotations, opts.UserMetadata)') + [(V, VUM_OLD, vum('signed map[string]string', 'signed'))]),
+ dict(name='benign-metadata-handed-the-descriptor', expect='silent',
+      edits=meta_calls('verifyUserMetadata(logger, payload.TargetArtifact, opts.UserMetadata)') + [(V, VUM_OLD, vum('signed ocispec.Descriptor', 'signed.Annotations'))]),
+ dict(name='benign-metadata-boolean-answer', expect='silent',
+      edits=bool_calls('!hasUserMetadata(logger, payload, opts.UserMetadata)') + [(V, VUM_OLD, HAS_META)]),
+ dict(name='benign-metadata-handed-outcome-and-options', expect='silent',
+      edits=[(V, WIDE_CALL, WIDE_NEW), (V, VUM_OLD, WIDE.replace('RANGED', 'opts.UserMetadata') + VUM_OLD)]),
+ # broken counterparts
+ dict(name='metadata-annotations-of-the-wrong-descriptor', expect='flagged(oci/metadata)',
+      edits=meta_calls('verifyUserMetadata(logger, desc.Annotations, opts.UserMetadata)', 'verifyUserMetadata(logger, payload.TargetArtifact.Annotations, opts.UserMetadata)') + [(V, VUM_OLD, vum('signed map[string]string', 'signed'))]),
+ dict(name='metadata-required-map-compared-with-itself', expect='flagged(metadata)',
+      edits=meta_calls('verifyUserMetadata(logger, opts.UserMetadata, opts.UserMetadata)') + [(V, VUM_OLD, vum('signed map[string]string', 'signed'))]),
+ dict(name='metadata-descriptor-loop-over-signed-annotations', expect='flagged(metadata)',
+      edits=meta_calls('verifyUserMetadata(logger, payload.TargetArtifact, opts.UserMetadata)') + [(V, VUM_OLD, vum('signed ocispec.Descriptor', 'userMetadata', ranged='signed.Annotations'))]),
+ dict(name='metadata-boolean-answer-tested-the-wrong-way', expect='flagged(metadata-gate)',
+      edits=bool_calls('hasUserMetadata(logger, payload, opts.UserMetadata)') + [(V, VUM_OLD, HAS_META)]),
+ dict(name='metadata-boolean-answer-early-true', expect='flagged(metadata-loop)',
+      edits=bool_calls('!hasUserMetadata(logger, payload, opts.UserMetadata)') + [(V, VUM_OLD, HAS_META.replace('			return false\n		}\n', '			return false\n		}\n		return true\n'))]),
+ dict(name='metadata-options-wrong-map-checked', expect='flagged(oci/metadata)',
+      edits=[(V, WIDE_CALL, WIDE_NEW), (V, VUM_OLD, WIDE.replace('RANGED', 'opts.PluginConfig') + VUM_OLD)]),
+ dict(name='metadata-options-decodes-the-raw-signature', expect='flagged(oci/metadata)',
+      edits=[(V, WIDE_CALL, WIDE_NEW), (V, VUM_OLD, WIDE.replace('RANGED', 'opts.UserMetadata').replace('outcome.EnvelopeContent.Payload.Content, signed', 'outcome.RawSignature, signed') + VUM_OLD)]),
+]
+
+# a helper's own look-alike object is not the entry point's decoded payload
+VARIANTS += [
+ dict(name='blob-predicate-compares-with-its-own-empty-payload', expect='flagged(blob/mediatype-equal)',
+      **blob_helper('\tif !isSignedBlob(desc) {\n', '''func isSignedBlob(blobDesc ocispec.Descriptor) bool {
+	signed := &envelope.Payload{}
+	if blobDesc.MediaType != "" && blobDesc.MediaType != signed.TargetArtifact.MediaType {
+		return false
+	}
+	return blobDesc.Digest == payloadDigest(signed) && blobDesc.Size == signed.TargetArtifact.Size
+}
+
+func payloadDigest(p *envelope.Payload) digest.Digest { return p.TargetArtifact.Digest }
+''')),
+]
+
+# ---- class A/B, one-directional: callees that decide more than they forward (conditional store, error wrapper) -------
+CTOR_COND = '''func newValidationResult(outcome *notation.VerificationOutcome, resultType trustpolicy.ValidationType, err error) *notation.ValidationResult {
+	r := &notation.ValidationResult{Type: resultType, Action: outcome.VerificationLevel.Enforcement[resultType]}
+	if COND {
+		r.Error = err
+	}
+	return r
+}
+
+'''
+WRAP = '''
+func describeFailure(step string, err error) error {
+	if COND {
+		return nil
+	}
+	return fmt.Errorf("%s: %w", step, err)
+}
+'''
+OCI_WRAPPED = OCI_OLD.replace('''	if err != nil {
+		logger.Error("Failed to unmarshal the payload content in the signature blob to envelope.Payload")
+		outcome.Error = err
+		return outcome, err
+	}''', '''	if err != nil {
+		err = describeFailure("decode payload", err)
+		outcome.Error = err
+		return outcome, err
+	}''')
+GUARDS_OLD = BM_OLD + '''		logger.Infof("payload present in the signature: %+v", payload.TargetArtifact)
+		logger.Infof("payload derived from the blob: %+v", desc)
+		outcome.Error = errors.New("integrity check failed. signature does not match the given blob")
+	}
+'''
+GUARD_SIZE = '''	if desc.Size != payload.TargetArtifact.Size {
+		outcome.Error = mismatch
+		return outcome, mismatch
+	}
+'''
+GUARDS = '''	mismatch := errors.New("integrity check failed. signature does not match the given blob")
+	if desc.Digest != payload.TargetArtifact.Digest {
+		outcome.Error = mismatch
+		return outcome, mismatch
+	}
+''' + GUARD_SIZE + '''	if desc.MediaType != "" {
+		if desc.MediaType != payload.TargetArtifact.MediaType {
+			outcome.Error = mismatch
+			return outcome, mismatch
+		}
+	}
+'''
+DESCRIBE = '''func describeBlob(generate notation.BlobDescriptorGenerator, algorithm digest.Algorithm) (ocispec.Descriptor, error) {
+	return generate(ALG)
+}
+
+'''
+def describe(alg):
+    return [(V, '\tdesc, err := descGenFunc(digestAlgo)\n', '\tdesc, err := describeBlob(descGenFunc, digestAlgo)\n'),
+            (V, BLOB_FN_ANCHOR, DESCRIBE.replace('ALG', alg) + BLOB_FN_ANCHOR)]
+SWITCH_MT = '''func isSignedBlob(blobDesc, signedDesc ocispec.Descriptor) bool {
+	switch blobDesc.MediaType {
+	case "", signedDesc.MediaType:
+	default:
+		return false
+	}
+	return blobDesc.Digest == signedDesc.Digest && blobDesc.Size == signedDesc.Size
+}
+'''
+VARIANTS += [
+ dict(name='benign-result-constructor-conditional-store', file=V, expect='silent', find=VI_OLD, replace=CTOR_COND.replace('COND', 'err != nil') + vi(mkA)),
+ dict(name='benign-error-wrapper-on-failure-exit', file=V, expect='silent', find=OCI_OLD, replace=OCI_WRAPPED + WRAP.replace('COND', 'err == nil')),
+ dict(name='benign-blob-guard-clauses', file=V, expect='silent', find=GUARDS_OLD, replace=GUARDS),
+ dict(name='benign-blob-generator-through-helper', expect='silent', edits=describe('algorithm')),
+ dict(name='benign-blob-predicate-switch', expect='silent', **blob_helper(IF_PRED, SWITCH_MT)),
+ # broken counterparts
+ dict(name='result-constructor-conditional-store-not-for-integrity', file=V, expect='flagged(parse-envelope)', find=VI_OLD,
+      replace=CTOR_COND.replace('COND', 'err != nil && resultType != trustpolicy.TypeIntegrity') + vi(mkA)),
+ dict(name='error-wrapper-swallows-decode-failure', file=V, expect='flagged(oci/)', find=OCI_OLD,
+      replace=OCI_WRAPPED + WRAP.replace('COND', 'err == nil || step == "decode payload"')),
+ dict(name='blob-guard-clauses-without-size', file=V, expect='flagged(blob/size-equal)', find=GUARDS_OLD, replace=GUARDS.replace(GUARD_SIZE, '')),
+ dict(name='blob-generator-helper-hardcodes-algorithm', expect='flagged(blob/)', edits=describe('digest.SHA256')),
+ dict(name='blob-predicate-switch-any-signed-type', expect='flagged(blob/mediatype-equal)',
+      **blob_helper(IF_PRED, SWITCH_MT.replace('	default:\n		return false\n', '	default:\n		return signedDesc.MediaType != ""\n'))),
+]
+
+# the media type equality alone in a one-expression helper (the fact is the condition the helper returns)
+MT_OLD = '(desc.MediaType != "" && desc.MediaType != payload.TargetArtifact.MediaType)'
+SAME = 'func sameString(a, b string) bool {\n\treturn a == b\n}\n'
+VARIANTS += [
+ dict(name='benign-mediatype-equality-helper', expect='silent',
+      edits=[(V, MT_OLD, '(desc.MediaType != "" && !sameString(desc.MediaType, payload.TargetArtifact.MediaType))'), (V, BLOB_FN_ANCHOR, SAME + '\n' + BLOB_FN_ANCHOR)]),
+ dict(name='mediatype-equality-helper-applied-to-itself', expect='flagged(blob/mediatype-equal)',
+      edits=[(V, MT_OLD, '(desc.MediaType != "" && !sameString(desc.MediaType, desc.MediaType))'), (V, BLOB_FN_ANCHOR, SAME + '\n' + BLOB_FN_ANCHOR)]),
+ dict(name='mediatype-equality-helper-case-insensitive', expect='flagged(blob/mediatype-equal)',
+      edits=[(V, MT_OLD, '(desc.MediaType != "" && !sameString(desc.MediaType, payload.TargetArtifact.MediaType))'), (V, BLOB_FN_ANCHOR, SAME.replace('a == b', 'strings.EqualFold(a, b)') + '\n' + BLOB_FN_ANCHOR)]),
+]
